@@ -626,6 +626,35 @@ theorem inx_scope_ends (env : Env) (fuel : Nat) (src : Src) (o : InOpts) (x : In
     (renderBlk env fuel (.inx_ src o x body els) st).2.level = st.level :=
   C08.block_preserves_stack env fuel (.inx_ src o x body els) st
 
+/-! ##### batch parameters given by variable name (`start=query_start`) -/
+
+/-- **`start` by name never fails**: when looking the variable up raises (undefined name, a callable that raises),
+`renderwb` takes 1 and goes on with the remaining parameters -/
+theorem start_by_name_failure_is_one (env : Env) (fuel : Nat) (n : Render.Text) (rest : List (Render.Text × Render.Text))
+    (bp : BatchP) (bad : Bool) (st st' : St) (e : Exc) (h : getitem env fuel n true st = (.raise e, st')) :
+    resolveNames env (fuel + 1) (("start".toList, n) :: rest) bp bad st =
+      resolveNames env fuel rest { bp with start := 1 } bad st' := by
+  simp only [resolveNames, h, setParam]
+  rfl
+
+/-- … for every other parameter the failure propagates (here: `size`) -/
+theorem size_by_name_failure_propagates (env : Env) (fuel : Nat) (n : Render.Text) (rest : List (Render.Text × Render.Text))
+    (bp : BatchP) (bad : Bool) (st st' : St) (e : Exc) (h : getitem env fuel n true st = (.raise e, st')) :
+    resolveNames env (fuel + 1) (("size".toList, n) :: rest) bp bad st = (.raise e, st') := by
+  simp only [resolveNames, h]
+  rfl
+
+/-- a number is taken as it is, a numeral string is converted (`int_param`) -/
+theorem param_by_name_value (env : Env) (fuel : Nat) (n : Render.Text) (rest : List (Render.Text × Render.Text))
+    (bp : BatchP) (bad : Bool) (st st' : St) (i : Int) (h : getitem env fuel n true st = (.ok (.int i), st')) :
+    resolveNames env (fuel + 1) (("size".toList, n) :: rest) bp bad st =
+      resolveNames env fuel rest { bp with size := i } bad st' := by
+  simp only [resolveNames, h, paramInt, setParam]
+  rfl
+
+example : (match paramInt (.str "12".toList) with | .ok i => i | _ => -1) = 12 := by decide
+example : (match paramInt (.str "x".toList) with | .valueError => true | _ => false) = true := by decide
+
 /-! ##### non-vacuity: a concrete batched rendering, evaluated in the kernel (five elements, start=2 size=2) -/
 section Example
 private def okText : Res (List Piece) → Option (List Piece)
